@@ -58,6 +58,13 @@ type Connection struct {
 	// closes) a channel that is already closed.
 	sendMu     sync.RWMutex
 	sendClosed bool
+
+	// writerGone is closed when WritePump returns: from then on nothing takes
+	// messages off the send queue, so a sender waiting for room (block
+	// strategy) must give up instead of waiting for the hub to close the queue
+	// - the waiting sender may be a handler running in the hub loop itself.
+	writerGone     chan struct{}
+	writerGoneOnce sync.Once
 }
 
 // trySend queues a message without blocking. It reports false when the queue is
@@ -121,6 +128,7 @@ func NewConnection(id string, conn *websocket.Conn, hub *Hub) *Connection {
 		PathParams:   make(map[string]string),
 		lastPongTime: time.Now(),
 		messageQueue: make([][]byte, 0),
+		writerGone:   make(chan struct{}),
 	}
 }
 
@@ -198,6 +206,7 @@ func (c *Connection) WritePump() {
 	defer func() {
 		ticker.Stop()
 		c.conn.Close()
+		c.writerGoneOnce.Do(func() { close(c.writerGone) })
 		c.hub.connWg.Done()
 	}()
 
@@ -325,6 +334,9 @@ func (c *Connection) Send(message []byte) error {
 			case c.send <- message:
 				c.sendMu.RUnlock()
 				return nil
+			case <-c.writerGone:
+				c.sendMu.RUnlock()
+				return ErrConnectionClosed
 			default:
 			}
 			c.sendMu.RUnlock()
